@@ -134,6 +134,8 @@ struct MTrack {
 	routes: Vec<(usize, Gain)>,
 	first_cb: u64,
 	drop_gap: Option<u64>,
+	/// a track is not removed before every track below it has been picked up
+	removal_floor: u64,
 	fx_calls: Vec<Vec<Call>>,
 	/// lower bound of the time this track has been processed for: its tweens and
 	/// fades only advance while every track above it is advancing
@@ -418,6 +420,7 @@ pub fn run_case(case: &Case) -> CaseResult {
 						routes: mroutes,
 						first_cb: cb,
 						drop_gap: None,
+						removal_floor: 0,
 						fx_calls: vec![],
 						local: 0.0,
 					});
@@ -433,6 +436,7 @@ pub fn run_case(case: &Case) -> CaseResult {
 						routes: vec![],
 						first_cb: u64::MAX - 1,
 						drop_gap: Some(0),
+						removal_floor: 0,
 						fx_calls: vec![],
 						local: 0.0,
 					});
@@ -488,9 +492,33 @@ pub fn run_case(case: &Case) -> CaseResult {
 						}
 						i += 1;
 					}
+					// a track is removed at the next callback - unless a track below it has not been
+					// picked up yet: then it (and everything between) stays for one more callback
+					let floor_of = |root: usize, tracks: &Vec<MTrack>| -> u64 {
+						let mut floor = 0u64;
+						let mut all = vec![root];
+						let mut q = 0;
+						while q < all.len() {
+							let p = all[q];
+							for (c, t) in tracks.iter().enumerate() {
+								if t.parent == Some(p) && cb < removed_at(t.first_cb, t.drop_gap).max(t.removal_floor) {
+									all.push(c);
+								}
+							}
+							q += 1;
+						}
+						for t in &all {
+							if tracks[*t].first_cb < u64::MAX - 8 {
+								floor = floor.max(tracks[*t].first_cb + 1);
+							}
+						}
+						floor
+					};
 					for t in order.iter().rev() {
+						let floor = floor_of(*t, &tracks);
 						tracks[*t].handle = None;
 						tracks[*t].drop_gap = Some(cb);
+						tracks[*t].removal_floor = floor;
 					}
 				}
 			}
@@ -589,7 +617,10 @@ pub fn run_case(case: &Case) -> CaseResult {
 					left -= c;
 				}
 				// presence of every resource during this callback
-				let t_present: Vec<bool> = tracks.iter().map(|t| cb >= t.first_cb && cb < removed_at(t.first_cb, t.drop_gap)).collect();
+				let t_present: Vec<bool> = tracks
+					.iter()
+					.map(|t| cb >= t.first_cb && cb < if t.drop_gap.is_some() { removed_at(t.first_cb, t.drop_gap).max(t.removal_floor) } else { u64::MAX })
+					.collect();
 				let path_present = |mut t: usize| -> bool {
 					loop {
 						if !t_present[t] {
